@@ -441,7 +441,9 @@ func raceSuite(c *Ctx) []Finding {
 		db.Sync()
 		db.Close()
 	}
-	runSum := func(base string) (string, error) {
+	// sum reads the wall clock itself and clamps the window with it: two runs are comparable
+	// only when they used the same second, which the output's "now:" line tells
+	runSum := func(base string) (string, string, error) {
 		out := filepath.Join(dir, "sum.txt")
 		os.Remove(out)
 		cmd := &wcmd.SumCommand{SrcBase: base, ItemPattern: "it", SrcPattern: "*.wsp", From: wt.Timestamp(g.now - g.lay.MaxRet()), Until: wt.Timestamp(g.now), ArchiveID: -1, TextOut: out, ShowHeader: true}
@@ -452,18 +454,26 @@ func raceSuite(c *Ctx) []Finding {
 		for _, gr := range p.groups {
 			parts = append(parts, recsJoin(gr))
 		}
-		return canonCmd(strings.Join(parts, "|")), err
+		return canonCmd(strings.Join(parts, "|")), fmt.Sprint(p.nows), err
 	}
-	s1, err1 := runSum(root)
-	s2, err2 := runSum(root)
-	count("sum-many-files", "ok")
-	if err1 != nil || err2 != nil || s1 != s2 {
-		// (the clock may tick between the two runs; compare only when the windows were explicit, as here)
-		if err1 != nil || err2 != nil {
-			bad("sum-error", fmt.Sprintf("%v %v", err1, err2))
-		} else {
-			bad("sum-differs", "two runs of sum over the same files with the same explicit window differ")
+	// twice in the same second (retried when the clock ticks in between)
+	samePair := func(baseA, baseB string) (a, b string, errA, errB error, ok bool) {
+		for try := 0; try < 8; try++ {
+			var na, nb string
+			a, na, errA = runSum(baseA)
+			b, nb, errB = runSum(baseB)
+			if errA != nil || errB != nil || na == nb {
+				return a, b, errA, errB, true
+			}
 		}
+		return a, b, errA, errB, false
+	}
+	s1, s2, err1, err2, cmp := samePair(root, root)
+	count("sum-many-files", fmt.Sprintf("ok comparable=%v", cmp))
+	if err1 != nil || err2 != nil {
+		bad("sum-error", fmt.Sprintf("%v %v", err1, err2))
+	} else if cmp && s1 != s2 {
+		bad("sum-differs", "two runs of sum over the same files in the same second differ")
 	}
 	// server: every endpoint in parallel
 	self, _ := os.Executable()
@@ -519,9 +529,10 @@ func raceSuite(c *Ctx) []Finding {
 			bad("request-differs", fmt.Sprintf("%d parallel requests returned a body different from the same request served alone", mism))
 		}
 		// the concurrent sum through the server too
-		s3, err3 := runSum(base)
-		if err3 != nil || s3 != s1 {
-			bad("remote-sum-differs", fmt.Sprintf("sum through the server differs from the local one (%v)", err3))
+		l3, s3, errL, err3, cmp3 := samePair(root, base)
+		count("sum-remote", fmt.Sprintf("ok comparable=%v", cmp3))
+		if err3 != nil || errL != nil || (cmp3 && s3 != l3) {
+			bad("remote-sum-differs", fmt.Sprintf("sum through the server differs from the local one in the same second (%v %v)", errL, err3))
 		}
 		srv.Process.Signal(syscall.SIGTERM)
 		done := make(chan struct{})
